@@ -23,7 +23,7 @@ for q, uf in [("skepticoin.datatypes.Transaction.hash", "tx_id"),
 def _(c):
     c.summary("enc")
     c.returns(BYTES)
-    c.ensures("G.encodable_any(self)")
+    c.ensures("G.encodable_any(self)", "len(result) >= 1")
     c.trust("serialize() is a function of the object; it raises (struct.error) when a field does not fit its wire "
             "format (A-ENC; codec obligations are C07)")
 
